@@ -253,7 +253,7 @@ func dsBehaviour(s *dsSink, d *dsGen, t *dsTy, orig, rebuilt schema.Type, leg st
 		rr := hx.Guard(func() hx.Result { r, out := hx.RunOpRaw(op, rebuilt, arg()); raw = out; return r })
 		id := 0
 		if withModel {
-			id = s.emit(dsCase{Op: op, Schema: ft, V: v, Ext: hx.MkExt(ft, v), Fuel: 400, Note: "rebuilt:" + leg}, rr)
+			id = s.emit(dsCase{Op: op, Schema: (*dsHxTy)(ft), V: v, Ext: hx.MkExt(ft, v), Fuel: 400, Note: "rebuilt:" + leg}, rr)
 		}
 		s.count("behaviour:" + op + ":" + rr.R)
 		if !dsSame(ro, rr) {
